@@ -34,8 +34,8 @@ def _char_native(S, env, I):
         s.fields["ghost_view"] = ""
         return None
     c = S.char("c")
-    t = S.str("view'")
-    S.assume(v.z == z3.Concat(c.z, t.z))
+    t = S.str("view_n")
+    S.ctx.word_equation(v.z, c.z, t.z)
     s.fields["ghost_view"] = t
     return c
 
@@ -63,7 +63,7 @@ def _charsuntil_native(S, env, I):
     q = S.str("view'")
     inside, outside = S.charset(chars), S.not_charset(chars)
     K, notK = (inside, outside) if opposite else (outside, inside)
-    S.assume(S.zs(v) == z3.Concat(p.z, q.z))
+    S.ctx.word_equation(S.zs(v), p.z, q.z)
     S.assume(z3.InRe(p.z, z3.Star(K)))
     S.assume(z3.InRe(q.z, z3.Union(z3.Re(z3.StringVal("")), z3.Concat(notK, z3.Star(z3.AllChar(z3.ReSort(z3.StringSort())))))))
     s.fields["ghost_view"] = q
